@@ -52,6 +52,7 @@ def run(rep, prog, tier):
     _r5(rep, prog)
     _r6(rep, prog)
     _r7(rep, prog)
+    _r8(rep, prog)
 
 
 def _r6(rep, prog):
@@ -130,6 +131,24 @@ def _r7(rep, prog):
               "into_intermediate_bucket_result puts the `missing` bucket into the result map with a plain HashMap::insert and then fills the map with the dictionary terms, also by plain insert: when the segment contains a term equal "
               "to the `missing` value, the missing bucket is replaced — docs c3, c3, (none) x3, c1 with `missing: \"c3\"` give c3 -> 2 in one segment (3 documents vanished) and c3 -> 5 when the value-less documents are in "
               "another segment", site=site(b, bad[0]) if bad else b.span)
+
+
+def _r8(rep, prog):
+    """the ordinal set of the cardinality aggregation never drops an ordinal silently"""
+    from ..model import Ev, must_pass
+    R = "C14-R8"
+    rep.rule(R, "a set's insert inserts: the cardinality aggregation on string columns collects term ordinals (and the `missing` sentinel, max ordinal + 1) in a PagedBitset; PagedBitset::insert reaches the bit-setting TinySet / word insert on every path to its return — an ordinal outside the allocated directory must be a loud failure (the index panic it is today), not an early return: a silently dropped sentinel makes the count one too low for exactly the segments whose term count fills the last page, i.e. dependent on the partition")
+    fid = AGG + "metric::cardinality::PagedBitset::insert"
+    b = prog.body(fid)
+    if not rep.check(b is not None, R, "PagedBitset::insert present", "found", "cannot establish: %s not found" % fid):
+        return
+    sets = [Ev(bi, "term") for bi, t in b.calls() if re.search(r"::insert_mut$|TinySet::insert$|BitSet::insert$", t.get("f") or "")]
+    if not rep.check(bool(sets), R, "the bit-setting call of PagedBitset::insert", "%d site(s)" % len(sets), "cannot establish: PagedBitset::insert has no insert_mut call", site=b.span):
+        return
+    bad = must_pass(b, sets, exits="all")
+    rep.check(not bad, R, "every return of PagedBitset::insert has set the bit", "must-pass insert_mut",
+              "PagedBitset::insert can return without having set the bit (an ordinal whose page is outside the directory is skipped silently): the cardinality of a string column with a `missing` value is one too low "
+              "when the sentinel ordinal falls on an unallocated page (a segment with exactly 1024 distinct terms), and right for other partitions of the same documents", site=site(b, bad[0]) if bad else b.span)
 
 
 def _merge_functions(prog):
